@@ -35,6 +35,12 @@ let parse_op ?(cur = false) toks = match toks with
   | ["swap"] -> OSwap
   | ["assign"] -> OAssign
   | ["destroy"] -> ODestroy
+  (* whole-container operations (argument: the other container) and the hinted insert *)
+  | ["appl"] -> OInsAll None                       (* List::append / HashSet::append / Map::insert (const C&) *)
+  | ["prel"] -> OInsAll (Some (nat_of_int 0))      (* List::prepend(const List&) *)
+  | ["insl"; p] -> OInsAll (Some (ni p))           (* List::insert(position, const List&) *)
+  | ["rmall"] -> ORemAll                           (* HashSet::remove(const HashSet&) *)
+  | ["hint"; p; k; v] -> OHint (ni p, zi k, zi v)  (* Map::insert(position, key, value) *)
   | _ -> failwith ("bad op: " ^ String.concat " " toks)
 
 let join sep f l = if l = [] then "-" else String.concat sep (List.map f l)
@@ -145,8 +151,8 @@ let explain kd st o now ev =
    | _ -> look "A" prev.ob_a prev.ob_b (not st.ss_cur) now.ob_a; look "B" prev.ob_b prev.ob_a st.ss_cur now.ob_b;
      let untouched = if st.ss_cur then nodes_eqb now.ob_a prev.ob_a else nodes_eqb now.ob_b prev.ob_b in
      if not untouched then bad := "the other container changed" :: !bad;
-     let (ps, ns) = if st.ss_cur then (prev.ob_b, now.ob_b) else (prev.ob_a, now.ob_a) in
-     if not (removed_ok kd o ps ns) then begin
+     let (ps, po, ns) = if st.ss_cur then (prev.ob_b, prev.ob_a, now.ob_b) else (prev.ob_a, prev.ob_b, now.ob_a) in
+     if not (removed_ok kd o ps po ns) then begin
        let over = match removal_budget o with Some b -> int_of_nat (length (missing ps ns)) > int_of_nat b | None -> false in
        if over then
          bad := Printf.sprintf "%d element(s) of the selected container disappeared (%s) although this operation removes %s"
@@ -155,11 +161,11 @@ let explain kd st o now ev =
        else
          bad := Printf.sprintf "the operation removed %s, which is not the element it names" (join "," node_str (missing ps ns)) :: !bad
      end);
-  List.iter (fun e -> if not (destroy_ok all_prev e) then bad := ("destructor event " ^ event_str e ^ " does not name a live element at its place") :: !bad) ev;
+  List.iter (fun e -> if not (destroy_ok all_prev st.ss_next e) then bad := ("destructor event " ^ event_str e ^ " does not name a live element at its place") :: !bad) ev;
   if is_pool kd && not (List.for_all pool_event_ok ev) then bad := "a pool container copied, moved or assigned an element" :: !bad;
-  if (match o with ODestroy -> false | _ -> true) && List.exists (function EFree _ -> true | _ -> false) ev then
-    bad := "an allocation was released outside the destructor" :: !bad;
   let alln = app now.ob_a now.ob_b in
+  if List.exists (fun e -> not (free_ok o alln e)) ev then
+    bad := "an allocation that holds a live element was released" :: !bad;
   if not (nodup_slot (List.map (fun n -> n.n_slot) alln)) then bad := "two live elements share a place" :: !bad;
   if not (nodup_nat (List.map (fun n -> n.n_id) alln)) then bad := "one object is listed twice" :: !bad;
   match !bad with [] -> "check_step = false" | l -> String.concat "; " (List.rev l)
